@@ -109,48 +109,58 @@ def cfgStyleOf (cfg : Cfg) (name : String) : Option Sgr.Style :=
   else if name = "config.null_style" then some cfg.nullStyle
   else none
 
-def signName : Sign → String
-  | .minus => "Minus" | .zero => "Zero" | .plus => "Plus"
-
 /-- Does an arm pattern of `painted_prefix` match? `none` = a pattern this model does not know. -/
 def prefixPat (cfg : Cfg) (st : St) (p : String) : Option Bool :=
+  let merge (sg : Sign) : Bool := match st with
+    | .hunk s _ (some _) => decide (s = sg)
+    | _ => false
+  let keep (sg : Sign) : Bool := match st with
+    | .hunk s _ _ => decide (s = sg) && cfg.keepMarkers
+    | _ => false
   if p = "_" then some true
-  else
-    let go (sg : Sign) : Option Bool :=
-      if p = "(Hunk" ++ signName sg ++ "(Combined(MergeParents::Prefix(prefix), InMergeConflict::No), _), _)" then
-        some (match st with
-          | .hunk s _ (some _) => decide (s = sg)
-          | _ => false)
-      else if p = "(Hunk" ++ signName sg ++ "(_, _), true)" then
-        some (match st with
-          | .hunk s _ _ => decide (s = sg) && cfg.keepMarkers
-          | _ => false)
-      else none
-    match go .minus, go .zero, go .plus with
-    | some b, _, _ => some b
-    | _, some b, _ => some b
-    | _, _, some b => some b
-    | _, _, _ => none
+  else if p = "(HunkMinus(Combined(MergeParents::Prefix(prefix), InMergeConflict::No), _), _)" then some (merge .minus)
+  else if p = "(HunkZero(Combined(MergeParents::Prefix(prefix), InMergeConflict::No), _), _)" then some (merge .zero)
+  else if p = "(HunkPlus(Combined(MergeParents::Prefix(prefix), InMergeConflict::No), _), _)" then some (merge .plus)
+  else if p = "(HunkMinus(_, _), true)" then some (keep .minus)
+  else if p = "(HunkZero(_, _), true)" then some (keep .zero)
+  else if p = "(HunkPlus(_, _), true)" then some (keep .plus)
+  else none
 
-/-- What an arm of `painted_prefix` returns: `Some(config.X.paint(prefix))`, `Some(config.X.paint("c".to_string()))`,
-`None`. -/
+/-- The expressions an arm of `painted_prefix` may return, as (text of the expression, style, what is painted):
+`Some(config.X.paint(prefix))`, `Some(config.X.paint("c".to_string()))` for the three hunk-line styles. -/
+def prefixExprTable : List (String × String × String) :=
+  [("Some(config.minus_style.paint(prefix))", "config.minus_style", "prefix"),
+   ("Some(config.zero_style.paint(prefix))", "config.zero_style", "prefix"),
+   ("Some(config.plus_style.paint(prefix))", "config.plus_style", "prefix"),
+   ("Some(config.minus_style.paint(\"-\".to_string()))", "config.minus_style", "-"),
+   ("Some(config.minus_style.paint(\" \".to_string()))", "config.minus_style", " "),
+   ("Some(config.minus_style.paint(\"+\".to_string()))", "config.minus_style", "+"),
+   ("Some(config.zero_style.paint(\"-\".to_string()))", "config.zero_style", "-"),
+   ("Some(config.zero_style.paint(\" \".to_string()))", "config.zero_style", " "),
+   ("Some(config.zero_style.paint(\"+\".to_string()))", "config.zero_style", "+"),
+   ("Some(config.plus_style.paint(\"-\".to_string()))", "config.plus_style", "-"),
+   ("Some(config.plus_style.paint(\" \".to_string()))", "config.plus_style", " "),
+   ("Some(config.plus_style.paint(\"+\".to_string()))", "config.plus_style", "+")]
+
+def prefixText (st : St) (t : String) : Option (List Char) :=
+  if t = "prefix" then
+    (match st with
+     | .hunk _ _ (some p) => some p
+     | _ => none)
+  else if t = "-" then some ['-']
+  else if t = " " then some [' ']
+  else if t = "+" then some ['+']
+  else none
+
 def prefixExpr (cfg : Cfg) (st : St) (e : String) : Except String (Option (Sgr.Style × List Char)) :=
   if e = "None" then .ok none
   else
-    let styles := ["config.minus_style", "config.zero_style", "config.plus_style"]
-    let texts : List (String × Option (List Char)) :=
-      [("prefix", match st with
-          | .hunk _ _ (some p) => some p
-          | _ => none),
-       ("\"-\".to_string()", some ['-']), ("\" \".to_string()", some [' ']), ("\"+\".to_string()", some ['+'])]
-    let cands := styles.flatMap fun s => texts.filterMap fun (t, v) =>
-      if e = "Some(" ++ s ++ ".paint(" ++ t ++ "))" then some (s, v) else none
-    match cands with
-    | (s, some v) :: _ =>
-      match cfgStyleOf cfg s with
-      | some st => .ok (some (st, v))
-      | none => .error "unmodelled"
-    | _ => .error "unmodelled"
+    match prefixExprTable.lookup e with
+    | some (s, t) =>
+      (match cfgStyleOf cfg s, prefixText st t with
+       | some sty, some v => .ok (some (sty, v))
+       | _, _ => .error "unmodelled")
+    | none => .error "unmodelled"
 
 def paintedPrefixGo (cfg : Cfg) (st : St) : List (String × String) → Except String (Option (Sgr.Style × List Char))
   | [] => .error "panic: non-exhaustive"
@@ -167,15 +177,15 @@ def paintedPrefix (cfg : Cfg) (st : St) : Except String (Option (Sgr.Style × Li
 /-! ### `paint_line` -/
 
 /-- One iteration of the section loop, the pushes in generated order. -/
-def loopBody (inner : List (String × String)) (pfx : Option (Sgr.Style × PPiece)) (handled : Bool)
+def loopBody (inner : List (String × List String)) (pfx : Option (Sgr.Style × PPiece)) (handled : Bool)
     (sec : Sgr.Style × List G) : List (Sgr.Style × PPiece) :=
   inner.flatMap fun (what, guards) =>
     if what = "prefix" then (if handled then [] else pfx.toList)
     else if what = "section" then
-      (if (guards.splitOn " ").contains "text-nonempty" && sec.2.isEmpty then [] else [(sec.1, .plain sec.2)])
+      (if guards.contains "text-nonempty" && sec.2.isEmpty then [] else [(sec.1, .plain sec.2)])
     else []
 
-def loopGo (inner : List (String × String)) (pfx : Option (Sgr.Style × PPiece)) :
+def loopGo (inner : List (String × List String)) (pfx : Option (Sgr.Style × PPiece)) :
     Bool → List (Sgr.Style × List G) → List (Sgr.Style × PPiece)
   | _, [] => []
   | handled, s :: rest => loopBody inner pfx handled s ++ loopGo inner pfx true rest
@@ -184,7 +194,7 @@ def loopGo (inner : List (String × String)) (pfx : Option (Sgr.Style × PPiece)
 def asciiClusters (t : List Char) : List G := t.map fun c => ⟨[c], 1⟩
 
 /-- The `ansi_strings` vector of `paint_line`, pushes in generated order (the gutter in front or behind the loop). -/
-def stringsOf (ps : List (String × String)) (inp : Input) (pfx : Option (Sgr.Style × List Char)) :
+def stringsOf (ps : List (String × List String)) (inp : Input) (pfx : Option (Sgr.Style × List Char)) :
     List (Sgr.Style × PPiece) :=
   let pfx' := pfx.map fun (s, t) => (s, PPiece.plain (asciiClusters t))
   let inner := ps.filter fun p => p.1 != "gutter"
@@ -225,25 +235,24 @@ def paintLine (cfg : Cfg) (inp : Input) : Except String (List (Sgr.Style × PPie
 
 /-- One alternative of a `match state` pattern. -/
 def statePat (st : St) (alt : String) : Option Bool :=
+  let plain (sg : Sign) : Bool := match st with
+    | .hunk s false _ => decide (s = sg)
+    | _ => false
+  let raw (sg : Sign) : Bool := match st with
+    | .hunk s true _ => decide (s = sg)
+    | _ => false
   if alt = "_" then some true
   else if alt = "State::Blame(_)" then some (st == .blame)
-  else
-    let go (sg : Sign) : Option Bool :=
-      if alt = "State::Hunk" ++ signName sg ++ "(_, None)" then
-        some (match st with
-          | .hunk s false _ => decide (s = sg)
-          | _ => false)
-      else if alt = "State::Hunk" ++ signName sg ++ "(_, Some(_))" then
-        some (match st with
-          | .hunk s true _ => decide (s = sg)
-          | _ => false)
-      else if alt = "State::Hunk" ++ signName sg ++ "Wrapped" then some (st == .wrapped sg)
-      else none
-    match go .minus, go .zero, go .plus with
-    | some b, _, _ => some b
-    | _, some b, _ => some b
-    | _, _, some b => some b
-    | _, _, _ => none
+  else if alt = "State::HunkMinus(_, None)" then some (plain .minus)
+  else if alt = "State::HunkZero(_, None)" then some (plain .zero)
+  else if alt = "State::HunkPlus(_, None)" then some (plain .plus)
+  else if alt = "State::HunkMinus(_, Some(_))" then some (raw .minus)
+  else if alt = "State::HunkZero(_, Some(_))" then some (raw .zero)
+  else if alt = "State::HunkPlus(_, Some(_))" then some (raw .plus)
+  else if alt = "State::HunkMinusWrapped" then some (st == .wrapped .minus)
+  else if alt = "State::HunkZeroWrapped" then some (st == .wrapped .zero)
+  else if alt = "State::HunkPlusWrapped" then some (st == .wrapped .plus)
+  else none
 
 def anyAlt (st : St) : List String → Option Bool
   | [] => some false
@@ -275,10 +284,10 @@ def fillStyleExpr (cfg : Cfg) (inp : Input) (e : String) : Except String Sgr.Sty
     | some s => .ok s
     | none => .error "unmodelled"
 
-def fillStyleGo (cfg : Cfg) (inp : Input) : List (String × String) → Except String Sgr.Style
+def fillStyleGo (cfg : Cfg) (inp : Input) : List (List String × String) → Except String Sgr.Style
   | [] => .error "panic: non-exhaustive"
   | (p, e) :: rest =>
-    match anyAlt inp.st (p.splitOn " | ") with
+    match anyAlt inp.st p with
     | none => .error "unmodelled"
     | some true => fillStyleExpr cfg inp e
     | some false => fillStyleGo cfg inp rest
@@ -323,10 +332,11 @@ def decisionExpr (cfg : Cfg) (bg : BgShouldFill) (e : String) : Except String (O
     .ok (if cfg.bgExtends then bgMode bg else none)
   else .error "unmodelled"
 
-def decisionGo (cfg : Cfg) (hasBg : Bool) (bg : BgShouldFill) : List (String × String) → Except String (Option FillMethod)
+def decisionGo (cfg : Cfg) (hasBg : Bool) (bg : BgShouldFill) :
+    List (List String × String) → Except String (Option FillMethod)
   | [] => .error "panic: non-exhaustive"
   | (p, e) :: rest =>
-    match decisionAny hasBg bg (p.splitOn " | ") with
+    match decisionAny hasBg bg p with
     | none => .error "unmodelled"
     | some true => decisionExpr cfg bg e
     | some false => decisionGo cfg hasBg bg rest
